@@ -914,6 +914,400 @@ def c11s(texts, be):
 
 HANDLERS.update({'c11': c11, 'c11s': c11s})
 
+# ---------------------------------------------------------------------------------------------------------------
+# C19: failures of the caller's stream or callbacks pass through cleanly
+# ---------------------------------------------------------------------------------------------------------------
+class _Boom(Exception): pass
+class _WStream:
+    """records writes/flushes; raises the given exception object at the k-th write (or flush)"""
+    def __init__(s, fail_at=None, exc=None, on='write', binary=False):
+        s.log = []; s.n = 0; s.fail_at = fail_at; s.exc = exc; s.on = on
+        if not binary: s.encoding = None if False else 'utf-8'
+    def _tick(s, kind):
+        if kind == s.on:
+            if s.fail_at is not None and s.n == s.fail_at: s.n += 1; raise s.exc
+            s.n += 1
+    def write(s, d): s._tick('write'); s.log.append(d)
+    def flush(s): s._tick('flush')
+
+def _ref_ok():
+    import yaml
+    return yaml.safe_load(yaml.safe_dump({'a': [1, 'x', None]})) == {'a': [1, 'x', None]} and yaml.safe_dump([1, 2]) == '- 1\n- 2\n'
+
+def c19(kind, payload, be, max_points):
+    import yaml, random
+    from tools.values import decode
+    bad = []; points = 0
+    rng = random.Random(len(str(payload)))
+    def pick(n):
+        idx = list(range(n))
+        if n > max_points: idx = sorted(rng.sample(idx, max_points - 2) + [0, n - 1])
+        return idx
+    if kind == 'dump':
+        enc, opts = payload
+        D = _classes(be)[0]
+        if D is None: return dict(bad=[], outcome='no_c')
+        v = decode(enc); o = _dump_opts(opts); binary = o.get('encoding') is not None and be == 'c'
+        for on in ('write', 'flush'):
+            w0 = _WStream(on=on)
+            if 'encoding' in o and o['encoding'] is not None and hasattr(w0, 'encoding'): pass
+            try: yaml.dump(v, w0, Dumper=D, **o)
+            except Exception as e: return dict(bad=[], outcome='dump_raises')
+            total = w0.n
+            for i in pick(total):
+                exc = _Boom('fault %d' % i); w = _WStream(fail_at=i, exc=exc, on=on)
+                points += 1
+                try:
+                    yaml.dump(v, w, Dumper=D, **o)
+                    bad.append(dict(kind='fault_swallowed', what='%s: the exception raised by stream.%s() call %d did not reach the caller' % (be, on, i), point=i, backend=be)); continue
+                except BaseException as e:
+                    if e is not exc:
+                        bad.append(dict(kind='fault_changed', what='%s: stream.%s() call %d raised the injected exception, the caller got %s: %s' % (be, on, i, type(e).__name__, str(e)[:60]), point=i, backend=be, exc=type(e).__name__)); continue
+                if w.log != w0.log[:len(w.log)]:
+                    bad.append(dict(kind='writes_not_prefix', what='%s: what was written before the fault at %s %d is not a prefix of the fault-free writes' % (be, on, i), point=i, backend=be))
+                if not _ref_ok(): bad.append(dict(kind='not_usable_after', what='%s: the library misbehaves after a failed dump' % be, point=i, backend=be)); break
+    elif kind == 'load':
+        text, sizes, binary = payload
+        L = _classes(be)[1]
+        if L is None: return dict(bad=[], outcome='no_c')
+        data = text.encode('utf-8') if binary else text
+        class RS(_Stream):
+            def __init__(s, d, sz, fail_at, exc): _Stream.__init__(s, d, sz); s.fail_at = fail_at; s.exc = exc; s.k = 0
+            def read(s, n=-1):
+                if s.fail_at is not None and s.k == s.fail_at: s.k += 1; raise s.exc
+                s.k += 1; return _Stream.read(s, n)
+        r0 = RS(data, sizes, None, None)
+        try:
+            for _ in yaml.load_all(r0, Loader=L): pass
+        except yaml.YAMLError: pass
+        except Exception: return dict(bad=[], outcome='load_crash')
+        for i in pick(r0.k):
+            exc = _Boom('fault %d' % i); points += 1
+            try:
+                for _ in yaml.load_all(RS(data, sizes, i, exc), Loader=L): pass
+                bad.append(dict(kind='fault_swallowed', what='%s: the exception raised by read() call %d did not reach the caller' % (be, i), point=i, backend=be))
+            except BaseException as e:
+                if e is not exc: bad.append(dict(kind='fault_changed', what='%s: read() call %d raised the injected exception, the caller got %s: %s' % (be, i, type(e).__name__, str(e)[:60]), point=i, backend=be, exc=type(e).__name__))
+            if not _ref_ok(): bad.append(dict(kind='not_usable_after', what='%s: the library misbehaves after a failed load' % be, point=i, backend=be)); break
+    elif kind == 'ctor':
+        n_nodes = payload
+        Lb = _classes(be)[1]
+        if Lb is None: return dict(bad=[], outcome='no_c')
+        text = '\n'.join('- !f {k%d: [!f x, *a]}' % i if i else '- &a !f 1' for i in range(n_nodes)) + '\n'
+        def run(fail_at, exc):
+            cnt = [0]
+            class L(Lb): pass
+            def cb(loader, node):
+                if fail_at is not None and cnt[0] == fail_at: cnt[0] += 1; raise exc
+                cnt[0] += 1
+                return 'v'
+            L.add_constructor('!f', cb)
+            yaml.load(text, Loader=L); return cnt[0]
+        total = run(None, None)
+        for i in pick(total):
+            exc = _Boom('fault %d' % i); points += 1
+            try:
+                run(i, exc); bad.append(dict(kind='fault_swallowed', what='%s: the exception raised by the user constructor call %d did not reach the caller' % (be, i), point=i, backend=be))
+            except BaseException as e:
+                if e is not exc: bad.append(dict(kind='fault_changed', what='%s: the user constructor call %d raised the injected exception, the caller got %s: %s' % (be, i, type(e).__name__, str(e)[:60]), point=i, backend=be, exc=type(e).__name__))
+            if not _ref_ok() or '!f' in Lb.yaml_constructors: bad.append(dict(kind='not_usable_after', what='%s: library state changed after a failing user constructor' % be, point=i, backend=be)); break
+    elif kind == 'repr':
+        n_objs = payload
+        Db = _classes(be)[0]
+        if Db is None: return dict(bad=[], outcome='no_c')
+        class T:
+            def __init__(s, i): s.i = i
+        objs = [T(i) for i in range(n_objs)]
+        value = {'k': objs, 'again': objs[:1], 'nested': [[o] for o in objs]}
+        def run(fail_at, exc, stream):
+            cnt = [0]
+            class D(Db): pass
+            def rp(dumper, data):
+                if fail_at is not None and cnt[0] == fail_at: cnt[0] += 1; raise exc
+                cnt[0] += 1
+                return dumper.represent_scalar('!t', str(data.i))
+            D.add_representer(T, rp)
+            yaml.dump(value, stream, Dumper=D); return cnt[0]
+        w0 = _WStream(); total = run(None, None, w0)
+        for i in pick(total):
+            exc = _Boom('fault %d' % i); points += 1; w = _WStream()
+            try:
+                run(i, exc, w); bad.append(dict(kind='fault_swallowed', what='%s: the exception raised by the user representer call %d did not reach the caller' % (be, i), point=i, backend=be))
+            except BaseException as e:
+                if e is not exc: bad.append(dict(kind='fault_changed', what='%s: the user representer call %d raised the injected exception, the caller got %s: %s' % (be, i, type(e).__name__, str(e)[:60]), point=i, backend=be, exc=type(e).__name__))
+            if w.log != w0.log[:len(w.log)]: bad.append(dict(kind='writes_not_prefix', what='%s: writes before the representer fault %d are not a prefix of the fault-free writes' % (be, i), point=i, backend=be))
+            if not _ref_ok() or T in Db.yaml_representers: bad.append(dict(kind='not_usable_after', what='%s: library state changed after a failing user representer' % be, point=i, backend=be)); break
+    return dict(bad=bad[:5], outcome='ok' if not bad else 'bad', points=points)
+
+HANDLERS.update({'c19': c19})
+
+# ---------------------------------------------------------------------------------------------------------------
+# C18: streams are consumed incrementally
+# ---------------------------------------------------------------------------------------------------------------
+def c18(docs, sizes, binary, api, be, bad_at):
+    """docs: list of document texts (each starts with '---'); the stream delivers them under the read schedule.  After the k-th
+    document has been delivered at most a fixed number of units beyond its end may have been requested."""
+    import yaml
+    Lb = _classes(be)[1]
+    if Lb is None: return dict(bad=[], outcome='no_c')
+    disposed = []
+    class L(Lb):
+        def dispose(self):
+            disposed.append(1)
+            return Lb.dispose(self)
+    text = ''.join(docs)
+    data = text.encode('utf-8') if binary else text
+    ends = []; pos = 0
+    for d in docs:
+        pos += len(d.encode('utf-8')) if binary else len(d)
+        ends.append(pos)
+    st = _Stream(data, sizes)
+    consumed = lambda: len(data) - len(st.d)
+    BOUND = (2 * 4096 + 8) if be == "py" else (2 * 16384 + 8)
+    bad = []; k = 0; worst = 0
+    try:
+        if api in ('load_all', 'compose_all'):
+            for item in getattr(yaml, api)(st, Loader=L):
+                over = consumed() - ends[k] if k < len(ends) else 0
+                worst = max(worst, over)
+                if over > BOUND and len(data) - ends[k] > BOUND:
+                    bad.append(dict(kind='read_ahead', what='%s/%s: when document %d was delivered %d units beyond its end had been consumed (bound %d, %d units follow)' % (be, api, k, over, BOUND, len(data) - ends[k]), backend=be)); break
+                k += 1
+        else:
+            for ev in yaml.parse(st, Loader=L):
+                if isinstance(ev, yaml.DocumentEndEvent):
+                    over = consumed() - ends[k] if k < len(ends) else 0
+                    worst = max(worst, over)
+                    if over > BOUND + 4096 and len(data) - ends[k] > BOUND + 4096:
+                        bad.append(dict(kind='read_ahead', what='%s/parse: at the end event of document %d, %d units beyond its end had been consumed' % (be, k, over), backend=be)); break
+                    k += 1
+        outcome = 'ok'
+    except yaml.YAMLError as e:
+        outcome = type(e).__name__
+        if bad_at is not None and k < bad_at:
+            bad.append(dict(kind='not_delivered_before_error', what='%s/%s: the error of malformed document %d was raised after only %d of the %d preceding documents were delivered' % (be, api, bad_at, k, bad_at), backend=be))
+        if bad_at is None: bad.append(dict(kind='unexpected_error', what='%s/%s raised %s on a well-formed stream' % (be, api, type(e).__name__), backend=be, exc=type(e).__name__))
+    except Exception as e:
+        return dict(bad=[dict(kind='non_yaml_exception', what='%s/%s raised %s' % (be, api, type(e).__name__), exc=type(e).__name__, backend=be)], outcome='crash')
+    if bad_at is not None and outcome == 'ok': bad.append(dict(kind='malformed_accepted', what='the malformed document %d did not raise' % bad_at, backend=be))
+    # abandoning the iteration releases the loader
+    if api == 'load_all' and len(docs) >= 2 and bad_at is None:
+        disposed[:] = []
+        g = yaml.load_all(_Stream(data, sizes), Loader=L)
+        next(g); g.close()
+        if not disposed: bad.append(dict(kind='not_released', what='%s: closing the load_all generator after one document did not dispose the loader' % be, backend=be))
+    return dict(bad=bad, outcome=outcome, worst=worst)
+
+HANDLERS.update({'c18': c18})
+
+# ---------------------------------------------------------------------------------------------------------------
+# C20: work grows linearly (interpreter-level function calls, sys.setprofile)
+# ---------------------------------------------------------------------------------------------------------------
+def _count_calls(fn):
+    cnt = [0]
+    def prof(frame, ev, arg):
+        if ev == 'call': cnt[0] += 1
+    sys.setprofile(prof)
+    try: fn()
+    finally: sys.setprofile(None)
+    return cnt[0]
+
+def c20(side, family, n, opts):
+    import yaml
+    from tools import catalogue
+    sys.setrecursionlimit(20000)
+    counts = []; sizes = []
+    for k in (n, 2 * n, 4 * n):
+        try:
+            if side == 'load':
+                text = catalogue.LOAD[family](k); sizes.append(len(text))
+                counts.append(_count_calls(lambda: list(yaml.safe_load_all(text))))
+            else:
+                v = catalogue.DUMP[family](k); out = []
+                counts.append(_count_calls(lambda: out.append(yaml.safe_dump(v, **(opts or {})))))
+                sizes.append(len(out[0]))
+        except Exception as e:
+            return dict(bad=[dict(kind='family_fails', what='%s family %s at size %d raised %s: %s' % (side, family, k, type(e).__name__, str(e)[:80]), exc=type(e).__name__)], outcome='error')
+    bad = []
+    # size = length of the document read / written (a family's text may grow faster than its parameter, e.g. nested indentation);
+    # work may grow at most in proportion to the size, with 15% tolerance and a constant allowance
+    for j in (0, 1):
+        a, b2 = counts[j], counts[j + 1]; sa, sb = max(sizes[j], 1), max(sizes[j + 1], 1)
+        if b2 * sa * 100 > 115 * a * sb + 40000 * sa:
+            bad.append(dict(kind='superlinear', what='%s family %s: %d calls for %d characters but %d calls for %d characters (more than 1.15x per character + 400)' % (side, family, a, sa, b2, sb), counts=counts, sizes=sizes)); break
+    return dict(bad=bad, outcome='ok' if not bad else 'superlinear', counts=counts, sizes=sizes)
+
+def c20prof(text):
+    """calls of the four reader primitives while yaml.scan runs (for the cost correspondence with Model/CostScan.v)"""
+    import yaml
+    names = ('peek', 'prefix', 'forward', 'get_mark'); c = dict.fromkeys(names, 0)
+    def prof(frame, ev, arg):
+        if ev == 'call':
+            nm = frame.f_code.co_name
+            if nm in c and frame.f_code.co_filename.endswith('reader.py'): c[nm] += 1
+    toks = 0; st = 'ok'
+    sys.setprofile(prof)
+    try:
+        for t in yaml.scan(text): toks += 1
+    except yaml.YAMLError: st = 'err'
+    except Exception: st = 'crash'
+    finally: sys.setprofile(None)
+    return dict(bad=[], outcome=st, tokens=toks, counts=[c[n] for n in names])
+
+HANDLERS.update({'c20': c20, 'c20prof': c20prof})
+
+# ---------------------------------------------------------------------------------------------------------------
+# C17: objects survive dump / unsafe load as they survive pickle protocol 2
+# ---------------------------------------------------------------------------------------------------------------
+def c17(seed, depth, cycle, be):
+    import yaml, pickle, random
+    from tools import c17classes as K
+    rng = random.Random(seed)
+    pool = []
+    obj = K.build(rng, depth, pool)
+    ckind = None
+    if cycle: obj, ckind = K.add_cycle(rng, obj, pool)
+    D = yaml.Dumper if be == 'py' else getattr(yaml, 'CDumper', None)
+    UL = yaml.UnsafeLoader if be == 'py' else getattr(yaml, 'CUnsafeLoader', None)
+    if D is None: return dict(bad=[], outcome='no_c')
+    try: pk = pickle.loads(pickle.dumps(obj, 2)); want = K.canon(pk)
+    except Exception as e: return dict(bad=[], outcome='unpicklable')
+    if want != K.canon(obj): return dict(bad=[], outcome='pickle_not_faithful')
+    bad = []
+    try: text = yaml.dump(obj, Dumper=D)
+    except Exception as e:
+        return dict(bad=[dict(kind='dump_raises', what='yaml.dump of a picklable graph raised %s: %s' % (type(e).__name__, str(e)[:80]), exc=type(e).__name__, backend=be, cycle=ckind)], outcome='dump_raises')
+    try:
+        back = yaml.load(text, Loader=UL); got = K.canon(back); outcome = 'ok'
+    except yaml.constructor.ConstructorError as e:
+        outcome = 'ConstructorError'; got = None
+        if ckind not in ('reduce_state', 'reduce_items'):
+            bad.append(dict(kind='rejected', what='unsafe_load rejects the dump of a graph pickle rebuilds (%s)' % str(e)[:100].replace('\n', ' '), text=text[:1500], backend=be, cycle=ckind))
+    except Exception as e:
+        return dict(bad=[dict(kind='load_raises', what='unsafe_load raised %s: %s' % (type(e).__name__, str(e)[:80]), exc=type(e).__name__, text=text[:1500], backend=be, cycle=ckind)], outcome='load_raises')
+    if got is not None and ckind in ('reduce_state', 'reduce_items') and got != want:
+        bad.append(dict(kind='cycle_misbuilt', what='a cycle through the state/items of a reduce tuple was neither rejected nor rebuilt as pickle does', text=text[:1500], backend=be, cycle=ckind))
+    elif got is not None and got != want:
+        k = 0
+        while k < min(len(got), len(want)) and got[k] == want[k]: k += 1
+        bad.append(dict(kind='rebuild_differs', what='YAML rebuilds %r where pickle protocol 2 rebuilds %r' % (got[max(0, k - 40):k + 60], want[max(0, k - 40):k + 60]), text=text[:1500], backend=be, cycle=ckind))
+    # the full loader accepts exactly the tuple / complex / name subset
+    FL = yaml.FullLoader if be == 'py' else getattr(yaml, 'CFullLoader', None)
+    needs_unsafe = any(t in text for t in ('python/object', 'python/module'))
+    try:
+        fb = yaml.load(text, Loader=FL)
+        if needs_unsafe: bad.append(dict(kind='full_accepts_object', what='the full loader accepted a document with object-construction tags', text=text[:1500], backend=be))
+        elif K.canon(fb) != want: bad.append(dict(kind='full_differs', what='the full loader rebuilds a tuple/complex/name document differently', text=text[:1500], backend=be))
+    except yaml.YAMLError as e:
+        if not needs_unsafe and ckind != 'args': bad.append(dict(kind='full_rejects_subset', what='the full loader rejects a document of the tuple/complex/name subset: %s' % str(e)[:100].replace('\n', ' '), text=text[:1500], backend=be))
+    except Exception as e:
+        bad.append(dict(kind='load_raises', what='full loader raised %s' % type(e).__name__, exc=type(e).__name__, text=text[:1500], backend=be))
+    return dict(bad=bad, outcome=outcome, cycle=ckind)
+
+def c17special(name, be):
+    """the two shapes where the YAML rebuild is known to differ from pickle (kept as known findings)"""
+    import yaml, pickle
+    from tools import c17classes as K
+    if name == 'limitlist':
+        o = K.LimitList(); o.extend([1, 2, 3, 4]); o.limit = 2
+    else: o = K.GetSetFalsy()
+    D = yaml.Dumper if be == 'py' else yaml.CDumper; UL = yaml.UnsafeLoader if be == 'py' else yaml.CUnsafeLoader
+    want = K.canon(pickle.loads(pickle.dumps(o, 2))); text = yaml.dump(o, Dumper=D)
+    got = K.canon(yaml.load(text, Loader=UL))
+    bad = []
+    if got != want: bad.append(dict(kind='rebuild_differs', what='YAML rebuilds %r where pickle protocol 2 rebuilds %r' % (got[:120], want[:120]), text=text[:600], backend=be, special=name))
+    return dict(bad=bad, outcome='ok' if not bad else 'differs')
+
+HANDLERS.update({'c17': c17, 'c17special': c17special})
+
+def c17probe(shape, be):
+    """protocol calls observed while YAML and pickle-2 rebuild an instrumented object with the given reduce tuple"""
+    import yaml, pickle
+    from tools import c17classes as K
+    K.Probe.shape = tuple(shape)
+    D = yaml.Dumper if be == 'py' else yaml.CDumper; UL = yaml.UnsafeLoader if be == 'py' else yaml.CUnsafeLoader
+    K.LOG[:] = []; o = K.Probe()
+    K.LOG[:] = []
+    try: data = pickle.dumps(o, 2); K.LOG[:] = []; pickle.loads(data); plog = K.probe_ops(list(K.LOG))
+    except Exception as e: return dict(bad=[], outcome='unpicklable ' + type(e).__name__)
+    K.LOG[:] = []
+    try: text = yaml.dump(o, Dumper=D); K.LOG[:] = []; yaml.load(text, Loader=UL); ylog = K.probe_ops(list(K.LOG))
+    except Exception as e: return dict(bad=[], outcome='yaml_raises ' + type(e).__name__, pickle=plog)
+    return dict(bad=[], outcome='ok', yaml=ylog, pickle=plog, text=text[:300])
+HANDLERS.update({'c17probe': c17probe})
+
+# ---------------------------------------------------------------------------------------------------------------
+# C06: the LibYAML back-end is a drop-in replacement
+# ---------------------------------------------------------------------------------------------------------------
+def _ev_sig(e):
+    import yaml
+    n = type(e).__name__
+    if isinstance(e, yaml.DocumentStartEvent): return (n, bool(e.explicit), tuple(e.version) if e.version else None, tuple(sorted((e.tags or {}).items())))
+    if isinstance(e, yaml.DocumentEndEvent): return (n, bool(e.explicit))
+    if isinstance(e, yaml.AliasEvent): return (n, e.anchor)
+    if isinstance(e, yaml.ScalarEvent): return (n, e.anchor, e.tag, tuple(e.implicit), e.value, e.style or None)
+    if isinstance(e, (yaml.SequenceStartEvent, yaml.MappingStartEvent)): return (n, e.anchor, e.tag, bool(e.implicit), bool(e.flow_style))
+    return (n,)
+def _node_sig(n, seen):
+    import yaml
+    if n is None: return None
+    if id(n) in seen: return ('ref', seen[id(n)])
+    seen[id(n)] = len(seen)
+    if isinstance(n, yaml.ScalarNode): return ('s', n.tag, n.value)
+    if isinstance(n, yaml.SequenceNode): return ('q', n.tag, tuple(_node_sig(x, seen) for x in n.value))
+    return ('m', n.tag, tuple((_node_sig(k, seen), _node_sig(v, seen)) for k, v in n.value))
+
+def c06(text, pair, single, strict_errors=False):
+    """Python vs LibYAML loader of one pair (Base/Safe/Full/Unsafe): events, node graphs, objects, error class"""
+    import yaml
+    from tools.values import show
+    from tools import c17classes
+    P = getattr(yaml, pair + 'Loader' if pair != 'Unsafe' else 'UnsafeLoader'); C = getattr(yaml, 'C' + pair + 'Loader' if pair != 'Unsafe' else 'CUnsafeLoader', None)
+    if C is None: return dict(bad=[], outcome='no_c')
+    def run(L):
+        out = {}
+        for name, f in (('events', lambda: [_ev_sig(e) for e in yaml.parse(text, Loader=L)]),
+                        ('nodes', lambda: [_node_sig(n, {}) for n in yaml.compose_all(text, Loader=L)]),
+                        ('objects', lambda: ([show(yaml.load(text, Loader=L))] if single else [show(d) for d in yaml.load_all(text, Loader=L)]))):
+            try: out[name] = ('ok', f())
+            except yaml.YAMLError as e: out[name] = ('error', type(e).__name__)
+            except RecursionError: out[name] = ('error', 'RecursionError')
+            except Exception as e: out[name] = ('error', 'NONYAML ' + type(e).__name__)
+        return out
+    a = run(P); b = run(C); bad = []
+    for name in ('events', 'nodes', 'objects'):
+        if a[name] != b[name]:
+            x, y = a[name], b[name]
+            if x[0] == 'error' and y[0] == 'error' and not strict_errors: continue      # which of several errors is met first is not compared; the class is, on the targeted malformed inputs
+            if x[0] == 'ok' and y[0] == 'ok':
+                k = 0
+                while k < min(len(x[1]), len(y[1])) and x[1][k] == y[1][k]: k += 1
+                d = '%s item %d: %r vs %r' % (name, k, (list(x[1]) + ['<end>'])[k], (list(y[1]) + ['<end>'])[k])
+            else: d = '%s: %r vs %r' % (name, x if x[0] == 'error' else 'ok', y if y[0] == 'error' else 'ok')
+            bad.append(dict(kind='backends_differ_' + name, what='%sLoader vs C%sLoader: %s' % (pair, pair, d[:300]), pair=pair, py=(x[1] if x[0] == 'error' else 'ok'), c=(y[1] if y[0] == 'error' else 'ok'))); break
+    return dict(bad=bad, outcome=a['objects'][0] + ('' if a['objects'][0] == 'ok' else ' ' + str(a['objects'][1])))
+
+def c06d(enc, opts):
+    """what either dumper writes is read identically by both loaders"""
+    import yaml
+    from tools.values import decode, show
+    if not hasattr(yaml, 'CSafeDumper'): return dict(bad=[], outcome='no_c')
+    v = decode(enc); o = _dump_opts(opts); bad = []
+    for D in (yaml.SafeDumper, yaml.CSafeDumper):
+        try: text = yaml.dump(v, Dumper=D, **o)
+        except Exception as e: continue
+        res = []
+        for L in (yaml.SafeLoader, yaml.CSafeLoader):
+            try: res.append(('ok', show(yaml.load(text, Loader=L), bool(o.get('sort_keys', True)))))
+            except yaml.YAMLError as e: res.append(('error', type(e).__name__))
+            except Exception as e: res.append(('error', 'NONYAML ' + type(e).__name__))
+        if res[0] != res[1]:
+            t = text if isinstance(text, str) else text.decode(o['encoding'], 'replace')
+            bad.append(dict(kind='dump_read_differently', what='output of %s is read as %s by SafeLoader and %s by CSafeLoader' % (D.__name__, str(res[0])[:100], str(res[1])[:100]), text=t[:3000], dumper=('py' if D is yaml.SafeDumper else 'c'))); break
+    return dict(bad=bad, outcome='ok' if not bad else 'bad')
+
+HANDLERS.update({'c06': c06, 'c06d': c06d})
+
 def handle(case):
     return HANDLERS[case[0]](*case[1:])
 
